@@ -78,7 +78,7 @@ TDone ==
         /\ Report("DoneAfterParts", FiredAfterPartsIn(batches, r, held),
                   <<r, held \cap ItemIds(entered[r]), {k \in PartsIn(batches, r) : batches[k].state # "closed"}>>)
         /\ Report("DoneErrIff", FiredErrIffIn(batches, r, E.err),
-                  <<r, E.err, {k \in PartsIn(batches, r) : ~batches[k].ok}>>)
+                  <<r, E.err, {k \in PartsLooseIn(batches, r) : ~batches[k].ok}>>)
         /\ dones' = [dones EXCEPT ![r] = Append(@, [err |-> E.err, after |-> TRUE, iff |-> TRUE])]
   /\ nchecks' = nchecks + 3
   /\ UNCHANGED <<entered, batches, sid, kind, max>>
